@@ -1,3 +1,4 @@
 import Props.Cells
 import Props.C13
 import Props.C16
+import Props.C18
